@@ -1942,7 +1942,7 @@ def plan_steps(perm, trees, lazy=True):
 # ---- inputs for factorisation checks (C04, C13, C18) ---------------------------------------------------------
 
 DECOR = {name: 0.0 for name in OPS}
-DECOR.update({'transpose': 2.0, 'fuse': 1.5, 'conj': 0.5, 'consume_transpose': 0.5, 'unfuse': 0.5, 'flip_signature': 0.3})
+DECOR.update({'transpose': 2.5, 'fuse': 2.5, 'conj': 0.5, 'consume_transpose': 0.5, 'unfuse': 0.5, 'flip_signature': 0.3})
 
 
 def draw_input_program(data, tier, values=None, min_rank=2, max_rank=4):
